@@ -215,9 +215,7 @@ func c10RunChildren(t *testing.T, ops []c10Op) map[int]*c10Res {
 	return results
 }
 
-func c10SegTerm(s c10Seg) string { return fmt.Sprintf("(%s, %s, %s)", gStr(s.Loc), gN(int64(s.Off)), gN(int64(s.Len))) }
-
-const c10OpsPerManifest = 6
+func c10SegTerm(s c10Seg) string { return fmt.Sprintf("(%s, %s, %s)", c10Str(s.Loc), gN(int64(s.Off)), gN(int64(s.Len))) }
 
 var c10Relocs = []string{".", "./out", "./out/", "./x/y", "./x/y/", "./d1", "./d1/"}
 var c10NoisyPaths = []string{"", "/", "..", "../x", "./a//b", "a/./b", "./d1/", "x/..", "/abs/", "d1", "./d1/../d1", "./", "./.", "sub/", "//"}
@@ -256,6 +254,7 @@ func c10OpsFor(seed uint64, j int, m *c10Man) []c10Op {
 	}
 }
 
+// one case = one manifest + the operations run on it (each in the child process)
 func TestVerifC10GM(t *testing.T) {
 	seed := vSeed()
 	n := vEnvInt("VERIF_N", 100)
@@ -266,82 +265,89 @@ func TestVerifC10GM(t *testing.T) {
 	}
 	exh := os.Getenv("VERIF_MODE") == "exh"
 	var ops []c10Op
-	var mans []*c10Man
+	type mcase struct {
+		idx      int
+		m        *c10Man
+		from, to int // ops[from:to]
+	}
+	var mcs []mcase
 	if exh {
 		for i, e := range c10ExhAll() {
 			if only >= 0 && i != only {
 				continue
 			}
 			m := c10ExhManifest(e)
+			mcs = append(mcs, mcase{i, m, len(ops), len(ops) + 1})
 			ops = append(ops, c10Op{Kind: "iter", Text: hx(m.Text), Index: i})
-			mans = append(mans, m)
 		}
 	} else {
-		// n counts manifests; every manifest yields c10OpsPerManifest cases
 		for j := 0; j < n; j++ {
-			if only >= 0 && only/c10OpsPerManifest != j {
+			if only >= 0 && only != j {
 				continue
 			}
 			m := c10Manifest(seed, j)
-			for k, op := range c10OpsFor(seed, j, m) {
-				op.Index = j*c10OpsPerManifest + k
-				if only >= 0 && op.Index != only {
-					continue
-				}
+			mo := c10OpsFor(seed, j, m)
+			mcs = append(mcs, mcase{j, m, len(ops), len(ops) + len(mo)})
+			for _, op := range mo {
+				op.Index = j
 				ops = append(ops, op)
-				mans = append(mans, m)
 			}
 		}
 	}
 	results := c10RunChildren(t, ops)
 	cs := vNewCases(stage)
-	for k, op := range ops {
-		m := mans[k]
-		var gop, obs, outcome string
-		switch op.Kind {
-		case "iter":
-			gop = "OpIter"
-		case "extract":
-			gop = fmt.Sprintf("(OpExtract %s %s)", gStr(unhx(op.A)), gStr(unhx(op.B)))
-		default:
-			gop = fmt.Sprintf("(OpEsc %s)", gStr(unhx(op.A)))
-		}
-		res, ok := results[k]
-		desc := map[string]interface{}{"index": op.Index, "kind": m.Kind, "op": op.Kind, "manifest": m.Text, "a": unhx(op.A), "b": unhx(op.B), "tags": m.Tags}
-		switch {
-		case !ok:
-			t.Fatalf("no result for op %d", k)
-		case res == nil:
-			obs, outcome = "ObsPanic", "panic"
-		case res.Kind == "iter":
-			var items []string
-			for _, it := range res.Iter {
-				var segs []string
-				for _, s := range it.Segs {
-					segs = append(segs, c10SegTerm(s))
-				}
-				items = append(items, "("+gStr(unhx(it.Path))+", "+gList(segs)+")")
+	for _, mc := range mcs {
+		m := mc.m
+		var terms []string
+		var opdescs []map[string]interface{}
+		tags := append([]string{fmt.Sprintf("kind=%d", m.Kind)}, m.Tags...)
+		for k := mc.from; k < mc.to; k++ {
+			op := ops[k]
+			var gop, obs, outcome string
+			od := map[string]interface{}{"op": op.Kind, "a": unhx(op.A), "b": unhx(op.B)}
+			switch op.Kind {
+			case "iter":
+				gop = "OpIter"
+			case "extract":
+				gop = fmt.Sprintf("(OpExtract %s %s)", c10Str(unhx(op.A)), c10Str(unhx(op.B)))
+			default:
+				gop = fmt.Sprintf("(OpEsc %s)", c10Str(unhx(op.A)))
 			}
-			obs, outcome = "(ObsIter "+gList(items)+")", "ok"
-			desc["iter"] = res.Iter
-		case res.Kind == "text":
-			obs, outcome = "(ObsText "+gStr(unhx(res.A))+")", "ok"
-			desc["text"] = unhx(res.A)
-		case res.Kind == "err":
-			obs, outcome = "ObsErr", "err"
-			desc["err"] = unhx(res.A)
-		case res.Kind == "esc":
-			obs, outcome = "(ObsEsc "+gStr(unhx(res.A))+" "+gStr(unhx(res.B))+")", "ok"
-			desc["escaped"], desc["unescaped"] = unhx(res.A), unhx(res.B)
+			res, ok := results[k]
+			switch {
+			case !ok:
+				t.Fatalf("no result for op %d", k)
+			case res == nil:
+				obs, outcome = "ObsPanic", "panic"
+			case res.Kind == "iter":
+				var items []string
+				for _, it := range res.Iter {
+					var segs []string
+					for _, s := range it.Segs {
+						segs = append(segs, c10SegTerm(s))
+					}
+					items = append(items, "("+c10Str(unhx(it.Path))+", "+gList(segs)+")")
+				}
+				obs, outcome = "(ObsIter "+gList(items)+")", "ok"
+				od["iter"] = res.Iter
+			case res.Kind == "text":
+				obs, outcome = "(ObsText "+c10Str(unhx(res.A))+")", "ok"
+				od["text"] = unhx(res.A)
+			case res.Kind == "err":
+				obs, outcome = "ObsErr", "err"
+				od["err"] = unhx(res.A)
+			case res.Kind == "esc":
+				obs, outcome = "(ObsEsc "+c10Str(unhx(res.A))+" "+c10Str(unhx(res.B))+")", "ok"
+				od["escaped"], od["unescaped"] = unhx(res.A), unhx(res.B)
+			}
+			od["outcome"] = outcome
+			opdescs = append(opdescs, od)
+			terms = append(terms, "("+gop+", "+obs+")")
+			tags = append(tags, "op="+op.Kind, "outcome="+outcome)
 		}
-		desc["outcome"] = outcome
-		txt := m.Text
-		if op.Kind == "esc" {
-			txt = ""
-		}
-		term := fmt.Sprintf("{| c_kind := %s; c_txt := %s; c_op := %s;\n   o_res := %s |}", gN(int64(m.Kind)), gStr(txt), gop, obs)
-		tags := append([]string{fmt.Sprintf("kind=%d", m.Kind), "op=" + op.Kind, "outcome=" + outcome}, m.Tags...)
-		cs.Add(op.Index, term, desc, len(strings.Fields(m.Text)) >= 3, tags...)
+		term := fmt.Sprintf("{| c_kind := %s; c_txt := %s; c_ops := %s |}", gN(int64(m.Kind)), c10Str(m.Text), gList(terms))
+		desc := map[string]interface{}{"index": mc.idx, "kind": m.Kind, "manifest": m.Text, "ops": opdescs, "tags": m.Tags}
+		cs.Add(mc.idx, term, desc, len(strings.Fields(m.Text)) >= 3, tags...)
 	}
 	cs.Write()
 }
@@ -461,13 +467,13 @@ func TestVerifC10PY(t *testing.T) {
 		}
 		var blocks, toks, names, segs, esc []string
 		for b, loc := range it.st.Blocks {
-			blocks = append(blocks, "("+gStr(loc)+", "+gN(it.st.Sizes[b])+")")
+			blocks = append(blocks, "("+c10Str(loc)+", "+gN(it.st.Sizes[b])+")")
 		}
 		for _, tk := range it.st.Toks {
-			toks = append(toks, "("+gN(tk.Pos)+", "+gN(tk.Len)+", "+gStr(tk.Name)+")")
+			toks = append(toks, "("+gN(tk.Pos)+", "+gN(tk.Len)+", "+c10Str(tk.Name)+")")
 		}
 		for _, e := range it.esc {
-			names = append(names, gStr(e))
+			names = append(names, c10Str(e))
 		}
 		for _, sl := range res.Segs {
 			if sl == nil {
@@ -476,12 +482,12 @@ func TestVerifC10PY(t *testing.T) {
 			}
 			var xs []string
 			for _, s := range sl {
-				xs = append(xs, fmt.Sprintf("(%s, %s%%N, %s%%N, %s%%N)", gStr(s[0]), s[1], s[2], s[3]))
+				xs = append(xs, fmt.Sprintf("(%s, %s%%N, %s%%N, %s%%N)", c10Str(s[0]), s[1], s[2], s[3]))
 			}
 			segs = append(segs, "(Some "+gList(xs)+")")
 		}
 		for _, e := range res.Esc {
-			esc = append(esc, gStr(unhx(e)))
+			esc = append(esc, c10Str(unhx(e)))
 		}
 		norm := "None"
 		var normToks []string
@@ -489,10 +495,10 @@ func TestVerifC10PY(t *testing.T) {
 			for _, x := range res.Norm {
 				normToks = append(normToks, unhx(x))
 			}
-			norm = "(Some " + gStrs(normToks) + ")"
+			norm = "(Some " + c10Strs(normToks) + ")"
 		}
 		term := fmt.Sprintf("{| c_name := %s; c_blocks := %s; c_fts := %s; c_names := %s;\n   o_segs := %s; o_norm := %s; o_esc := %s |}",
-			gStr(it.st.Name), gList(blocks), gList(toks), gList(names), gList(segs), norm, gList(esc))
+			c10Str(it.st.Name), gList(blocks), gList(toks), gList(names), gList(segs), norm, gList(esc))
 		desc := map[string]interface{}{"index": it.idx, "stream": it.st, "segments": res.Segs, "normalized": normToks, "exception": res.Exc, "tags": it.tags}
 		cs.Add(it.idx, term, desc, len(it.st.Blocks) >= 2, it.tags...)
 	}
